@@ -34,7 +34,7 @@ class OnError(Part):
     def strategy(self, tier):
         return tstrat.templates(depth=3 if tier == "quick" else 4,
                                 onerror=6, fail_p=5, len_ok=False,
-                                max_elems=10)
+                                max_elems=10, ns_elems=True)
 
     def source_obj(self, case):
         return tmodel.serialize(case["nodes"])
